@@ -176,6 +176,9 @@ func c04Run(r *engine.Run) int {
 	r.Assumptions = []string{"S3 semantics: atomic objects, no torn writes, a request that was in flight either took effect or did not", "requests issued concurrently by one commit (node PUTs) may land in any subset; sequential requests land in order"}
 	var cases []json.RawMessage
 	shards := 8
+	if r.Thorough() {
+		shards = 32
+	}
 	for i := range scen {
 		for s := 0; s < shards; s++ {
 			cases = append(cases, engine.J(c04Case{Scen: i, Shard: s, Shards: shards, Deep: r.Thorough()}))
@@ -253,6 +256,9 @@ func c04Worker(raw json.RawMessage) *engine.Result {
 	}
 	if sc.SameRows && !after.Equal(before) {
 		res.Violate("maintenance-changes-rows", "rows before %v, after %v [%s]", before, after, sc.Name)
+	}
+	if c.Deep {
+		engine.CutCap = 1 << 17
 	}
 	cuts, exhaustive := engine.Cuts(log)
 	shape := engine.Shape(log)
